@@ -1,8 +1,9 @@
 """C18 — the language server converges to the latest document text.
 
-proof:   coq/C18/Props.v — handler/schedule machine (Model.v); `converged` proved for ALL histories and
-         fair schedules of the Repaired variant (T1) and of the Faithful variant outside three classes
-         (T7); the Faithful model refutes it inside each class (T2-T5, vm_compute witnesses).
+proof:   coq/C18/Props.v — handler/schedule machine (Model.v) of the ticket-guarded store; `converged`
+         proved for ALL histories whose last text per document parses and ALL fair schedules of the code
+         as it is (T1), for all histories of the variant that also stores unparsable texts (T2); refuted
+         inside the one remaining class (T3); regression witnesses for the two repaired findings (T4-T6).
 tie:     a REAL IncanLanguageServer is driven through tower_lsp::LspService (harness/src/c18.rs) along
          model schedules; with the gate hook in /repo (src/lsp/verif_gate.rs, cfg incan_verif) every
          step executes one atomic segment, and after EVERY step stored documents (cfg accessor), RwLock
@@ -101,7 +102,7 @@ def segs_of(kind, u):
     if kind == "C":
         return ["CR", "CP"]
     if kind == "B":
-        return ["PE"] if VARIANT == "Faithful" else ["ST", "PB"]
+        return ["GD", "PB"] if VARIANT == "Faithful" else ["ST", "PB"]  # GD: ticket test under the guard, nothing stored
     return ["DR"] + (["DP"] if kind == "I" else []) + ["ST", "PB"]
 
 
@@ -131,7 +132,7 @@ class Sim:
         s = self.segs[k][0]
         if s == "DR":
             return self.writer is None
-        if s in ("ST", "CR"):
+        if s in ("ST", "GD", "CR"):
             return self.writer is None and not self.readers
         return True
 
@@ -147,14 +148,12 @@ class Sim:
             self.readers.add(k)
         elif s == "DP" and nxt != "DP":
             self.readers.discard(k)
-        elif s in ("CR", "ST") and VARIANT == "Repaired":
+        elif s in ("CR", "ST", "GD"):
             if self.ticket.get(self.hist[k][1]) == k:
                 self.writer = k
             else:
-                self.segs[k] = []
-        elif s == "CR":
-            self.writer = k
-        elif s == "CP" or (s == "PB" and VARIANT == "Repaired"):
+                self.segs[k] = []  # a newer notification for this document has arrived: the handler ends
+        elif s in ("CP", "PB"):
             self.writer = None
 
     def moves(self):
@@ -262,15 +261,20 @@ def histories(n, docs, rng=None, count=None):
 
 
 FIXED = [  # (tag, history, schedule) — the Coq witnesses of Props.v and friends, always run first
-    ("stale", [("G", 0, 1), ("G", 0, 2)], [0, 1, 0, 1, 1, 1, 0, 0]),
-    ("reopen", [("G", 0, 1), ("C", 0, 0), ("G", 0, 1)], [0, 0, 1, 1, 1, 2, 2, 2, 2, 0, 0]),
-    ("syntax", [("G", 0, 1), ("B", 0, 2)], [0, 0, 0, 0, 1, 1]),
-    ("dep", [("G", 1, 1), ("I", 0, 1)], [0, 0, 0, 0, 1, 1, 1, 1, 1]),
+    ("syntax", [("G", 0, 1), ("B", 0, 2)], [0, 0, 0, 0, 1, 1, 1]),
+    # regression witnesses of the repaired findings (must converge; never suppressed)
+    ("regress-stale", [("G", 0, 1), ("G", 0, 2)], [0, 1, 0, 1, 1, 1, 0]),
+    ("regress-stale-old-schedule", [("G", 0, 1), ("G", 0, 2)], [0, 1, 0, 1, 1, 1, 0, 0]),
+    ("regress-reopen", [("G", 0, 1), ("C", 0, 0), ("G", 0, 1)], [0, 0, 1, 1, 1, 2, 2, 2, 2, 0]),
+    ("regress-late-close", [("G", 0, 1), ("C", 0, 0), ("G", 0, 1)], [0, 0, 0, 0, 1, 2, 2, 2, 2, 1]),
+    ("regress-dep", [("G", 1, 1), ("I", 0, 1)], [0, 0, 0, 0, 1, 1, 1, 1, 1]),
     ("store-blocked-by-close", [("G", 0, 1), ("C", 0, 0)], [0, 0, 1, 1, 0]),
     ("store-blocked-by-reader", [("I", 0, 1), ("G", 0, 2)], [0, 0, 1, 1, 1]),
-    ("nonvacuous", [("G", 0, 1), ("G", 1, 1), ("G", 0, 2)], [0, 1, 0, 1, 0, 0, 1, 1, 2, 2, 2, 2]),
+    ("nonvacuous", [("G", 0, 1), ("G", 1, 1), ("G", 0, 2)], [0, 1, 2, 0, 1, 2, 0, 1, 1, 2, 2]),
 ]
-NATURAL_STALE = ([("G", 1, 1), ("I", 0, 1), ("G", 0, 2)], [0, 1, 2, -1, 1, 2, -1, 1])
+# the interleaving that produced a stale store on the un-repaired server WITHOUT gates (natural suspension
+# at tower-lsp's flush + the RwLock queue); -1 drains the client socket. Must converge now.
+NATURAL_STALE = ([("G", 1, 1), ("I", 0, 1), ("G", 0, 2)], [0, 1, 2, -1, 1, 2, -1, 1, 2, -1, 1, 2])
 
 
 def gen_cases(chk, gates):
@@ -532,7 +536,7 @@ def _run(chk, res, gates, binary, docs):
         req = "From Coq Require Import ZArith List Bool.\nFrom Verif Require Import C18.Model.\nImport ListNotations.\nOpen Scope Z_scope."
         ty = "list note * list nat"
         fn = ("fun c => (render " + VARIANT + " [0;1] (fst c) (snd c), "
-              "(known_syntax (fst c), known_dep (fst c), known_overlap (fst c) (snd c)))")
+              "(known_syntax (fst c), former_dep (fst c), former_overlap (fst c) (snd c)))")
         model = vlib.coq_eval(req, ty, fn, [c.coq() for c in cases], shard=150, tag="c18")
     else:
         res["tie_ok"] = False
@@ -546,11 +550,13 @@ def _run(chk, res, gates, binary, docs):
             continue
         dist[c.tag] = dist.get(c.tag, 0) + 1
         chk.count_case(c.key(), nontrivial=r["legal"] and len(c.hist) > 1)
-        cls, dd = [], []
+        cls, dd, former = [], [], []
         if model is not None:
             mv = model[i]
             m, (ksyn, kdep, kov) = list(mv[:4]), mv[4]
-            cls = [n for n, b in (("lsp-error-keeps-old", ksyn), ("lsp-dep-republish", kdep), ("lsp-stale-store", kov)) if b]
+            # only lsp-error-keeps-old is a class; the two repaired ones are reported for orientation only
+            cls = ["lsp-error-keeps-old"] if ksyn else []
+            former = [n for n, b in (("lsp-dep-republish", kdep), ("lsp-stale-store", kov)) if b]
             m[3] = model_pubs_payload(c, m[3], ref)
             dd = compare(c, r, m, gates)
             if r["pubs"] != m[3] and (r["legal"] and m[0]):
@@ -562,13 +568,14 @@ def _run(chk, res, gates, binary, docs):
             if why:
                 # suppressed only if the case lies in a LISTED class and the server did exactly what the
                 # faithful model (whose refutations are the listed findings) predicts for it
-                listed = [x for x in cls if x in known]
+                listed = [x for x in cls if x in known and x == "lsp-error-keeps-old"]
                 if listed and not dd and model is not None:
                     for x in listed:
                         suppressed[x] = suppressed.get(x, 0) + 1
                 else:
                     fails.append({"case": c.key(), "tag": c.tag, "history": c.notes_json(), "schedule": c.sched,
-                                  "why": why, "class": cls, "server": {"pubs": r["pubs"], "hover": r["hover"]}})
+                                  "why": why, "class": cls, "would_have_been_in_repaired_class": former,
+                                  "server": {"pubs": r["pubs"], "hover": r["hover"]}})
     chk.coverage["rule"] = ("a case = (history, schedule); histories over {open/change good, good importing document 1, syntax error, close} "
                             "x 2 documents; schedules enumerated exhaustively (tags *-all) or sampled by seeded random walks over the "
                             "enabled moves; non-trivial = legal schedule with >= 2 notifications; distinct by (history, schedule)")
@@ -582,22 +589,32 @@ def _run(chk, res, gates, binary, docs):
     if not gates:
         chk.notes.append("gate hook not found in the repository: only sequential schedules were driven "
                          "(apply hooks/c18_lsp_gate.patch to /repo to enable await-level schedules)")
-    # known findings: replay each witness on the real server
+    # known findings: replay each witness on the real server; a FIXED finding whose witness fails again
+    # is a regression and is never suppressed
     for f in chk.findings:
-        if f.get("status") != "known":
+        w = f.get("witness") or {}
+        if "history" not in w:
             continue
-        w = f["witness"]
         hist = [tuple(x) for x in w["history"]]
-        if gates or w["schedule"] == sequential(hist):
-            c = Case(hist, w["schedule"], "witness")
-            r = run_real(binary, [c.line(docs)])[0]
-        elif "natural_schedule" in w:
-            c = Case([tuple(x) for x in w["natural_history"]], w["natural_schedule"], "witness")
-            r = run_real(binary, [c.line(docs, natural=True)])[0]
-        else:
+        if not (gates or w["schedule"] == sequential(hist)):
             continue
-        if r.get("quiescent") and oracle(c, r, ref_for(binary, docs, c, ref)):
+        c = Case(hist, w["schedule"], "witness")
+        r = run_real(binary, [c.line(docs)])[0]
+        bad = r.get("quiescent") and oracle(c, r, ref_for(binary, docs, c, ref))
+        if f.get("status") == "known" and bad:
             chk.known(f["id"], "%s: %s" % (f["id"], f["summary"]))
+        elif f.get("status") == "fixed" and (bad or not r.get("quiescent")):
+            fails.append({"case": c.key(), "tag": "regression of fixed finding " + f["id"], "history": c.notes_json(), "schedule": c.sched,
+                          "why": bad or ["witness schedule of the fixed finding is no longer a complete run"], "class": [],
+                          "server": {"pubs": r.get("pubs"), "hover": r.get("hover")}})
+    # the natural (gate-free) interleaving that used to produce the stale store
+    c = Case(NATURAL_STALE[0], NATURAL_STALE[1], "natural-stale")
+    r = run_real(binary, [c.line(docs, natural=True)])[0]
+    bad = ["natural run did not reach quiescence: %r" % r.get("blocked_at")] if not r.get("quiescent") else oracle(c, r, ref_for(binary, docs, c, ref))
+    chk.count_case("natural|" + c.key())
+    if bad:
+        fails.append({"case": c.key(), "tag": "natural-stale (no gates)", "history": c.notes_json(), "schedule": c.sched, "natural": True,
+                      "why": bad, "class": [], "server": {"pubs": r.get("pubs"), "hover": r.get("hover")}})
     fails.sort(key=lambda f: (bool(f.get('class')), len(f.get('history', [])), len(f.get('schedule', []))))
     for f in fails[:20]:
         chk.violation("failing-input", f)
